@@ -139,10 +139,8 @@ theorem recKeyed_execute (cfg : Cfg) (st : State) (tx : Tx) (hc : CodecId cfg) (
     repeat' split
     all_goals first | exact hr | skip
     rename_i m hm _ _
-    unfold refundApply
-    apply recKeyed_of_live cfg (if needsRemoval m.typ (m.stake - refundMoney m am) = true then
-        removeMiner cfg st id src m.typ (m.stake - refundMoney m am)
-      else updateMiner cfg st { m with stake := m.stake - refundMoney m am } none) _ rfl
+    apply recKeyed_of_live cfg (refundCore cfg st id src m (refundMoney m am)) _ rfl
+    unfold refundCore
     split
     · exact recKeyed_removeMiner _ _ _ _ _ _ hraw hr
     · apply recKeyed_updateMiner_none _ _ _ hraw hr
